@@ -186,6 +186,11 @@ func newTstats() *tstats {
 
 var nodeLong = core.NodeOpt{Timeout: 25 * time.Minute}
 
+// The reference runs math.FMA through upstream's pure-Go implementation (the one GopherJS
+// compiles): the amd64 intrinsic uses the hardware instruction, which differs from upstream's
+// own software fallback in the sign of results that underflow to zero when z == 0.
+var nativeEnv = []string{"GODEBUG=cpu.fma=off"}
+
 // runTable runs one table program on both sides and records violations (one per differing
 // digest, localised to the first differing evaluation).
 func runTable(c *core.Ctx, st *tstats, t *tprog) {
@@ -193,7 +198,11 @@ func runTable(c *core.Ctx, st *tstats, t *tprog) {
 	if d := os.Getenv("C13_DUMP"); d != "" { // development aid
 		core.WriteFiles(filepath.Join(d, t.name), p.Files)
 	}
-	res := c.DiffProgram(p, core.DiffOpt{Node: nodeLong, Quiet: true})
+	t0 := time.Now()
+	res := c.DiffProgram(p, core.DiffOpt{Node: nodeLong, Quiet: true, NativeEnv: nativeEnv})
+	if os.Getenv("VERIF_DEBUG") != "" {
+		fmt.Printf("c13: %-60s %-12s %5.1fs\n", t.name, res.Verdict, time.Since(t0).Seconds())
+	}
 	if res.Verdict == "violated" {
 		localise(c, p, res)
 	}
@@ -300,7 +309,7 @@ func localise(c *core.Ctx, p *core.Program, res core.DiffResult) {
 				q.Files[k] = v
 			}
 			q.Files["zz_verbose.go"] = fmt.Sprintf("package main\n\nvar verbose = %q\n", blk)
-			r2 := c.DiffProgram(q, core.DiffOpt{Node: nodeLong, Quiet: true})
+			r2 := c.DiffProgram(q, core.DiffOpt{Node: nodeLong, Quiet: true, NativeEnv: nativeEnv})
 			if len(r2.JS) == 0 {
 				continue
 			}
